@@ -27,6 +27,7 @@ type c19 struct {
 	eps  op.Endpoints
 	abs  map[string]string // endpoint name -> absolute URL override
 	mode string
+	path string
 }
 
 func (c *c19) viol(rule, site, format string, a ...any) {
@@ -67,7 +68,9 @@ func RunC19(t *testing.T, spec kernel.Spec) *kernel.Outcome {
 		custom("device", func(e *op.Endpoint) { eps.DeviceAuthorization = e }, op.WithCustomDeviceAuthorizationEndpoint)
 		c.eps = eps
 		c.mode = cfg.Pick("static", "static", "host", "forwarded")
-		w, err := world.NewStd(o, tape, world.StdOptions{Router: spec.Params["router"], AllGrants: true, IssuerMode: c.mode, Options: opts, Endpoints: &eps, Algs: []int{0, 4}})
+		// the issuer may have a path; the handler is then mounted below it
+		c.path = cfg.Pick("", "", "/oidc", "/tenants/t1")
+		w, err := world.NewStd(o, tape, world.StdOptions{Router: spec.Params["router"], AllGrants: true, IssuerMode: c.mode, IssuerPath: c.path, Options: opts, Endpoints: &eps, Algs: []int{0, 4}})
 		if err != nil {
 			o.Infra = "world: " + err.Error()
 			return
@@ -76,11 +79,11 @@ func RunC19(t *testing.T, spec kernel.Spec) *kernel.Outcome {
 		hosts := []string{"op.sim"}
 		if c.mode != "static" {
 			hosts = append(hosts, "op2.sim")
-			w.Net.Hosts["op2.sim"] = w.OP.Handler
+			w.Net.Hosts["op2.sim"] = w.Net.Hosts["op.sim"]
 		}
 		var issuers []string
 		for _, h := range hosts {
-			issuers = append(issuers, "https://"+h)
+			issuers = append(issuers, "https://"+h+c.path)
 		}
 		for _, iss := range issuers {
 			c.checkIssuer(iss)
@@ -91,8 +94,8 @@ func RunC19(t *testing.T, spec kernel.Spec) *kernel.Outcome {
 		}
 		c.issuerTable(tape.Sub("table"))
 		c.hostileDiscovery()
-		o.Log = append([]string{fmt.Sprintf("config: router=%s mode=%s flags{s256=%v post=%v pkjwt=%v refresh=%v reqobj=%v} caps=%+v endpoints{auth=%s token=%s introspect=%s userinfo=%s revoke=%s end=%s jwks=%s device=%s} abs=%v",
-			w.Router, c.mode, w.Conf.CodeMethodS256, w.Conf.AuthMethodPost, w.Conf.AuthMethodPrivateKeyJWT, w.Conf.GrantTypeRefreshToken, w.Conf.RequestObjectSupported, w.Caps,
+		o.Log = append([]string{fmt.Sprintf("config: router=%s mode=%s path=%q flags{s256=%v post=%v pkjwt=%v refresh=%v reqobj=%v} caps=%+v endpoints{auth=%s token=%s introspect=%s userinfo=%s revoke=%s end=%s jwks=%s device=%s} abs=%v",
+			w.Router, c.mode, c.path, w.Conf.CodeMethodS256, w.Conf.AuthMethodPost, w.Conf.AuthMethodPrivateKeyJWT, w.Conf.GrantTypeRefreshToken, w.Conf.RequestObjectSupported, w.Caps,
 			eps.Authorization.Relative(), eps.Token.Relative(), eps.Introspection.Relative(), eps.Userinfo.Relative(), eps.Revocation.Relative(), eps.EndSession.Relative(), eps.JwksURI.Relative(), eps.DeviceAuthorization.Relative(), c.abs)}, o.Log...)
 		o.Sample = map[string]any{"seed": spec.Seed, "config": o.Log[0]}
 		o.Trace = []string{o.Log[0]}
@@ -217,7 +220,7 @@ func (c *c19) flow(b *world.Browser, issuer string, doc *oidc.DiscoveryConfigura
 		return
 	}
 	lu, _ := url.Parse(r.Location)
-	lr := b.PostForm(issuer+"/login", url.Values{"authRequestID": {lu.Query().Get("authRequestID")}, "username": {"alice"}, "password": {"pw-alice"}})
+	lr := b.PostForm(cl.LoginBase, url.Values{"authRequestID": {lu.Query().Get("authRequestID")}, "username": {"alice"}, "password": {"pw-alice"}})
 	if lr.Status != 302 {
 		c.viol("flow", "login", "login stub failed: %d", lr.Status)
 		return
@@ -338,7 +341,9 @@ func (c *c19) issuerTable(ch *kernel.Chooser) {
 // hostileDiscovery: the RP's discovery client rejects a document whose issuer differs from the one asked for.
 func (c *c19) hostileDiscovery() {
 	w := c.w
-	for _, other := range []string{"https://evil.sim", "https://op.sim/", "https://OP.sim", "https://op.sim.evil.sim", ""} {
+	asked := "https://mirror.sim"
+	for _, other := range []string{"https://evil.sim", "https://op.sim/", "https://OP.sim", "https://op.sim.evil.sim", "", asked + ".evil.sim", asked + "/", asked + "/tenant", asked + ":443",
+		"https://MIRROR.sim", asked[:len(asked)-1], " " + asked, asked + "?x=1", asked + "#f", "http://mirror.sim"} {
 		other := other
 		w.Net.Hosts["mirror.sim"] = http.HandlerFunc(func(rw http.ResponseWriter, r *http.Request) {
 			rw.Header().Set("Content-Type", "application/json")
